@@ -275,14 +275,19 @@ def explore(make_bodies, granularity, bound, judge, shard=0, nshards=1, max_exec
                     return
                 rec(taken[:i] + [alt], cost, False)
 
-    if shard == 0:
-        rec([], 0, True)
-    else:
-        # other shards skip re-judging the default execution but need its trace
-        r = run_schedule(make_bodies, [], granularity)
+    # top level: every choice of the starting thread (not a pre-emption), then the deviation points of each of these
+    # executions are partitioned over the shards by index; deeper levels are explored by the shard that owns the first deviation
+    first = run_schedule(make_bodies, [], granularity)
+    nstart = first["trace"][0][1] if first["trace"] else 1
+    for start_choice in range(nstart):
+        root = [start_choice] if start_choice else []
+        if shard == 0:
+            r = run(root)
+        else:
+            r = run_schedule(make_bodies, root, granularity)
         trace = r["trace"]
         taken = [t[2] for t in trace]
-        for i in range(len(trace)):
+        for i in range(1, len(trace)):
             t, nopt, c, _, label = trace[i]
             if nopt <= 1 or (i % nshards) != shard:
                 continue
@@ -291,5 +296,8 @@ def explore(make_bodies, granularity, bound, judge, shard=0, nshards=1, max_exec
             if cost > bound:
                 continue
             for alt in range(1, nopt):
+                if max_exec and out["executions"] >= max_exec:
+                    out["capped"] = True
+                    return out
                 rec(taken[:i] + [alt], cost, False)
     return out
